@@ -10,14 +10,7 @@ CORR_MODULES = ["Proto.FragCorr"]
 PREFIX = "C05"
 CASE_TYPE = "C05_case"
 HARNESS = "c05"
-KNOWN = {
-    1: "C05-nackfrag-count-zero",
-    2: "C05-nackfrag-off-by-one",
-    3: "C05-fragsize-zero-div",
-    4: "C05-nackfrag-bitmap-overflow",
-    5: "C05-mixed-readerid-truncation",
-    6: "C05-nackfrag-none-missing-panic",
-}
+KNOWN = {}  # the six findings of this check are repaired in /repo (known_findings.json: status fixed)
 RULE = ("one case = a scenario on a real RtpsStatefulWriter + RtpsStatefulReader pair: writes of payloads of "
         "size k*f-1, k*f, k*f+1 (f in 8, 9, 64, 1344, 65000 and random), deliveries of the writer's own datagrams "
         "(parsed from the wire) in every order / with loss subsets / duplicates / interleaved samples, hand-made "
@@ -31,11 +24,11 @@ TRUSTED = ["theories/Proto/FragModel.v is a hand transcription of cache_change.r
            "the harness transcribes the heartbeat handling of communication_methods.rs (the only caller of "
            "RtpsWriterProxy::write_message) and plays the network"]
 ASSUMPTIONS = ["fragment size 1 <= f <= 65535 and payload length < 2^32 (the u16 / u32 wire fields); the accepted "
-               "range 8..=65000 lies inside",
+               "range 8..=65000 lies inside; data_max_size_serialized = 0 is outside (the writer divides by it)",
                "all changes are ALIVE, without inline QoS; sequence numbers are 1, 2, 3, ... as the DCPS writer assigns",
-               "byte identity is claimed when all fragments of a sample carry the same reader id (known finding "
-               "C05-mixed-readerid-truncation otherwise); repair of lost fragments is NOT achieved by the code "
-               "(known findings C05-nackfrag-count-zero, C05-nackfrag-off-by-one)"]
+               "no hand-made DATA_FRAGs in the theorems about byte identity and panic freedom (they are exercised in the "
+               "correspondence run); repair theorems: reliable reader and writer, fewer than 2^31 - 1 replies (i32 counts), "
+               "the resent fragments of a round are delivered"]
 
 FSIZES = [8, 9, 64, 1344, 65000]
 
@@ -198,9 +191,10 @@ def gen_fsize0(r, f):
 
 
 def gen_bitmap(r, k, have):
-    """k fragments of 8 bytes, only `have` arrive, then a heartbeat: NACK_FRAG spans k fragment numbers"""
-    ops = [("W", payload(r, 8 * k - r.randint(0, 7)))] + [("D", 1, i, 1) for i in have] + [("H", 1, 1, 1, 0), ("N",)]
-    return case(1, 1, 8, ops, False)
+    """k fragments of 8 bytes, only `have` arrive: the NACK_FRAG window is 256 numbers, several rounds repair"""
+    nr = 3 + k // 256
+    ops = [("W", payload(r, 8 * k - r.randint(0, 7)))] + [("D", 1, i, 1) for i in have] + repair_rounds(nr, 1, 1)
+    return case(1, 1, 8, ops, True)
 
 
 def gen_mixed(r, f, n, rel=1):
@@ -263,7 +257,7 @@ def gen(r, tier):
     for k, have in ((256, [0]), (257, [1]), (257, [0]), (258, [0]), (300, [0]), (300, [150]), (300, [0, 299]),
                     (257, [256]), (600, [1, 2, 3]), (257, list(range(1, 257))), (520, list(range(0, 520, 2)))):
         cases.append(gen_bitmap(r, k, have))
-    n_rand = {"quick": 500, "search": 3000, "thorough": 3500}[tier]
+    n_rand = {"quick": 500, "search": 3000, "thorough": 2500}[tier]
     for j in range(n_rand):
         x = r.random()
         f = r.choice(FSIZES[:3]) if r.random() < 0.8 else r.choice([1344, r.randint(8, 300), r.randint(8, 2000)])
@@ -308,18 +302,18 @@ def corpus():
     return [
         # in-order, no loss
         case(1, 1, 8, [("W", p21), ("D", 1, 0, 1), ("D", 1, 2, 1), ("D", 1, 1, 1)], True),
-        # D8a: one fragment lost; the reader's NACK_FRAG has count 0 and is dropped by the writer
+        # regression C05-nackfrag-count-zero: one fragment lost, repaired through the reader's NACK_FRAG
         case(1, 1, 8, [("W", p21), ("D", 1, 0, 1), ("D", 1, 2, 1)] + repair_rounds(3, 1, 1), True),
-        # D8b: forged NACK_FRAG (count 1) for fragment 2 -> the writer resends fragment 3, twice
+        # regression C05-nackfrag-off-by-one: forged NACK_FRAG for fragment 2 / for the last fragment
         case(1, 1, 8, [("W", p21), ("D", 1, 0, 1), ("D", 1, 2, 1), ("F", 1, 1, 2, [2])], False),
         case(1, 1, 8, [("W", p21), ("D", 1, 0, 1), ("D", 1, 1, 1), ("F", 1, 1, 3, [3])], False),
-        # D13: fragment_size 0
+        # regression C05-fragsize-zero-div: fragment_size 0 is ignored
         case(1, 1, 8, [("X", 1, 1, 1, 1, 0, 21, bytes([1, 2]))], False),
-        # two readers of one participant: truncated payload delivered
+        # regression C05-mixed-readerid-truncation: two readers of one participant
         case(1, 2, 8, [("W", p29), ("D", 1, 0, 1), ("D", 1, 1, 1), ("D", 1, 0, 2), ("D", 1, 1, 2)], False),
-        # 300 fragments, one received: the reader panics building its NACK_FRAG
+        # regression C05-nackfrag-bitmap-overflow: 300 fragments, one received, repaired in rounds
         gen_bitmap(r, 300, [0]),
-        # two readers, both copies of fragment 2 before fragment 1: never reassembled, heartbeat reply panics
+        # regression C05-nackfrag-none-missing-panic: both copies of fragment 2 before fragment 1
         case(1, 2, 8, [("W", bytes(range(1, 10))), ("D", 1, 1, 1), ("D", 1, 1, 2), ("D", 1, 0, 1), ("D", 1, 0, 2),
                        ("H", 1, 1, 1, 0)], False),
         # foreign fragments: numbers 1..4 all present, one extra copy with fragments_in_submessage 2
@@ -537,21 +531,21 @@ MANIFEST = {
              "reconstruct_data_from_frag, NACK_FRAG generation) and RtpsStatefulReader::on_data(_frag)_submessage. "
              "Proved for every payload and every fragment size 1..65535: the fragments concatenate to the payload, are "
              "numbered 1..ceil(len/f), the reader's expected count is that ceiling; reconstruct returns exactly the "
-             "payload from ANY list that contains every fragment (any order, duplicates, other samples interleaved) and "
-             "nothing from an incomplete one; for EVERY history of writes, deliveries, losses, heartbeats, ACKNACK / "
-             "NACK_FRAG rounds the reader only ever holds byte-identical payloads, once, in order; a reliable reader "
-             "that received every fragment holds the sample; no panic outside two known classes. The repair half of "
-             "the property is FALSE on the code and is proved false on the model for all histories (the reader's "
-             "NACK_FRAG count is always 0 and is always filtered; a lost fragment is never resent; an accepted NACK_FRAG "
-             "is answered with fragment n+1), each confirmed on the real code (6 known findings). The model is tied to "
-             "the code by driving the real RtpsStatefulWriter / RtpsStatefulReader on generated scenarios and comparing "
-             "every observation with the model inside Coq; the property oracle judges the implementation's own trace."),
+             "payload from ANY list that contains every fragment (any order, duplicates, copies for other readers, other "
+             "samples interleaved) and nothing from an incomplete one; for EVERY history of writes, deliveries, losses, "
+             "heartbeats, ACKNACK / NACK_FRAG rounds the reader only ever holds byte-identical payloads, once, in order, "
+             "and nothing panics; a reliable reader that received every fragment holds the sample; every NACK_FRAG the "
+             "reader emits has a fresh count and is processed; the fragment resent for number n is fragment n; lost "
+             "fragments are repaired: one heartbeat -> NACK_FRAG -> resend round completes the sample when the missing "
+             "fragments lie within 256 of the first one, k+1 rounds complete any sample of fewer than 2+256k fragments "
+             "from any loss pattern. The model is tied to the code by driving the real RtpsStatefulWriter / "
+             "RtpsStatefulReader on generated scenarios and comparing every observation with the model inside Coq; the "
+             "property oracle judges the implementation's own trace."),
     "note": ("Trusted: Coq kernel + vm_compute; hand model FragModel.v (checked against the code on every run); the harness "
              "(plays the network, transcribes the heartbeat handling of communication_methods.rs); payloads above 1 kB "
-             "are compared by length + 63-bit FNV-1a digest computed on both sides (primitive Uint63 in FragCorr.v only). "
-             "Axioms: none. Not covered: inline QoS / key-only fragments, non-ALIVE changes, fragment sizes above 65535, "
-             "the datagram codec itself (C07). Known findings: C05-nackfrag-count-zero, C05-nackfrag-off-by-one, "
-             "C05-fragsize-zero-div, C05-nackfrag-bitmap-overflow, C05-mixed-readerid-truncation, "
-             "C05-nackfrag-none-missing-panic."),
+             "are compared by length + 63-bit FNV-1a digest computed on both sides (PrimInt63 in FragCorr.v only). "
+             "Axioms: none. Not covered: inline QoS / key-only fragments, non-ALIVE changes, fragment sizes above 65535 "
+             "and 0, the datagram codec itself (C07). Six defects found by this check were repaired in /repo (fix commits "
+             "9534038 46bd1ab f7fe2df d6a64f9 a2cc75b d077ac8); their inputs are regression cases."),
     "technique": "Coq proof (list induction, invariants over all histories) + differential correspondence with oracle evaluated in Coq",
 }
